@@ -439,6 +439,21 @@ func runC10(tier string, seed uint64, out *Out) {
 		}
 		out.Line("c10 dec %s %s", hx(b), goDecode(b))
 	}
+	// KeyValue lengths next to 2^32 whose inner lengths are mutually consistent (kvLen = keyLen +
+	// valueLen + 8 with wrap-free uint64 arithmetic): only the buffer-size check stands between
+	// them and the slicing code, and kvLen+4 wraps around in uint32
+	for _, kv := range []uint32{0xFFFFFFFF, 0xFFFFFFFE, 0xFFFFFFFD, 0xFFFFFFFC, 0xFFFFFFFB, 0xFFFFFFF0, 0x80000000, 0x7FFFFFFF} {
+		for _, keyLen := range []uint32{12, 13, 20} {
+			cell := make([]byte, 24+int(keyLen-12))
+			binary.BigEndian.PutUint32(cell[0:], kv)
+			binary.BigEndian.PutUint32(cell[4:], keyLen)
+			binary.BigEndian.PutUint32(cell[8:], kv-8-keyLen)
+			binary.BigEndian.PutUint16(cell[12:], uint16(keyLen-12))
+			cell[len(cell)-1] = 4
+			dec(cell)
+			dec(append(cell, make([]byte, 40)...))
+		}
+	}
 	put32 := func(b []byte, off int, v uint32) []byte {
 		c := append([]byte{}, b...)
 		binary.BigEndian.PutUint32(c[off:], v)
